@@ -5,8 +5,13 @@ pub mod c05;
 pub mod c06;
 pub mod c07;
 pub mod c12;
+pub mod c13;
+pub mod c14;
 pub mod c15;
 pub mod c16;
+pub mod c17;
+pub mod c18;
+pub mod c19;
 pub mod c20;
 pub mod sample_props;
 
@@ -23,8 +28,13 @@ pub fn dispatch(ctx: &Ctx) -> i32 {
         "C10" => sample_props::run(ctx, sample_props::Which::C10),
         "C11" => sample_props::run(ctx, sample_props::Which::C11),
         "C12" => c12::run(ctx),
+        "C13" => c13::run(ctx),
+        "C14" => c14::run(ctx),
         "C15" => c15::run(ctx),
         "C16" => c16::run(ctx),
+        "C17" => c17::run(ctx),
+        "C18" => c18::run(ctx),
+        "C19" => c19::run(ctx),
         "C20" => c20::run(ctx),
         other => {
             crate::util::out(&format!("unknown check {}", other));
